@@ -23,6 +23,21 @@ Gating classes
                units, "" for timedelta/bool; yes/no/on/off for bool; reversed ranges; int literal
                for a float option, bool literal for an int option, None; repeated options;
                parse-callback counts (documented, but not part of the statement: observed only).
+
+Callback scenarios (second case kind, (sub-seed, "cb")): the pattern documented with define(),
+    define("config", type=str, callback=lambda path: parse_config_file(path, final=False))
+used as `--port=1 --config=FILE --port=5`.  One or two options carry a callback that re-enters the parser (parses a
+config file, parses a file of further command-line arguments, or assigns other options); they are placed anywhere among
+ordinary flags and their files set any subset of the options.
+  MUST         an option whose LAST assignment in command-line order is a flag holds the flag's value (the command line
+               sets it, statement; 'can be overridden by later flags', documentation - both agree); right after the
+               parse a callback performed returned, every option that parse sets holds its value (the statement applied to
+               that parse; observed inside the callback); an option assigned only by such a parse still holds that value
+               at the end (nothing else sets it); untouched options keep their defaults; one wrong-typed value / unknown
+               option inside the parsed file or next to the callback option makes the outer parse raise.
+  UNSPECIFIED  an option set by a flag and then by the file of a callback option given LATER: the documentation says the
+               file wins, the statement read literally says the flag's value - either is accepted (a third value is a
+               violation); whether/when/how often a callback runs (documentation only).
 """
 from __future__ import annotations
 
@@ -45,20 +60,24 @@ PROP = "C44"
 META = {
     "level": "exploration",
     "technique": "generator-owned denotation: independent value printers (canonical + alternative forms) vs. values held by a fresh OptionParser after parse_command_line / parse_config_file; negative catalogue for unknown options and wrong-typed values",
-    "level_text": "Random definition sets (1-6 options; str/int/float/bool/datetime/timedelta; str values from a word list, a list of words built from the option-syntax characters _ - = and random strings over them; scalar and multiple; defaults of the type or None; dash/underscore name spellings) are parsed from generated command lines (-/--/--- prefixes, name spellings, `--` terminator, positional tail, final on/off) and generated config files (typed literals and strings); every option's value, type and every untouched default is compared with the generator's denotation; one-fault negative cases expect an error.",
+    "level_text": "Random definition sets (1-6 options; str/int/float/bool/datetime/timedelta; str values from a word list, a list of words built from the option-syntax characters _ - = and random strings over them; scalar and multiple; defaults of the type or None; dash/underscore name spellings) are parsed from generated command lines (-/--/--- prefixes, name spellings, `--` terminator, positional tail, final on/off) and generated config files (typed literals and strings); every option's value, type and every untouched default is compared with the generator's denotation; one-fault negative cases expect an error. A second case kind puts options whose callback re-enters the parser (documented --config=FILE pattern: config file, arguments file, direct assignment) at every position among ordinary flags, with files that set any subset of the options: flags given after the callback option must win, values are also observed inside the callback right after the nested parse.",
     "level_note": "Any exception counts as rejection. Integer ranges are inclusive (code comment + options_test), the docstring's range(x, y) is recorded as a doc discrepancy. Time-only datetime formats are compared on the time part only.",
     "design_ref": "DESIGN.md §4 C44",
     "engine": "oracle",
 }
 RULE = ("cases are (definition set, source kind, assignments with their textual forms, optional single fault) rebuilt "
         "from a sub-seed; non-trivial if at least one option is assigned from text or a fault is injected; distinct by "
-        "the rendered scenario (definitions + argv/config text)")
+        "the rendered scenario (definitions + argv/config text); callback scenarios: (definitions, 1-2 callback options of "
+        "kind file/argsfile/setattr with their payload, order of flags and callback options, optional single fault)")
 FLOORS = {"quick": 12000, "thorough": 400000}
 ASSUMPTIONS = ["C locale for %a/%b names", "integer ranges x:y are inclusive at both ends",
-               "any exception raised by the parse call is a rejection"]
+               "any exception raised by the parse call is a rejection",
+               "a flag given after a callback option is the last assignment of its option (documented callback order)"]
 REQUIRED_COUNTERS = ["oracle_evals", "value_checks", "default_checks", "cmdline_cases", "config_cases",
                      "neg_unknown_option", "neg_wrong_type", "type_int", "type_float", "type_bool", "type_str",
-                     "type_datetime", "type_timedelta", "multiple_options", "int_ranges"]
+                     "type_datetime", "type_timedelta", "multiple_options", "int_ranges", "cb_cases",
+                     "cb_flag_after_hook_same_option", "cb_in_callback_value_checks", "cb_set_only_by_callback_parse",
+                     "cb_hook_file", "cb_hook_argsfile", "cb_hook_setattr", "cb_neg_payload", "cb_neg_outer"]
 
 TYPES = {"str": str, "int": int, "float": float, "bool": bool, "datetime": datetime.datetime,
          "timedelta": datetime.timedelta}
@@ -230,6 +249,56 @@ def py_literal(tname, v):
     return repr(v)
 
 
+def gen_def(rng, used):
+    tname = rng.choice(list(TYPES))
+    multiple = rng.random() < 0.3
+    segs, defined = gen_name(rng, used)
+    if rng.random() < 0.3:
+        default = None
+    elif multiple:
+        default = [GEN[tname](rng)[0] if tname != "str" else gen_str(rng, True)[0] for _ in range(rng.randint(0, 3))]
+    else:
+        default = GEN[tname](rng)[0]
+    return {"segs": segs, "name": defined, "type": tname, "multiple": multiple, "default": default,
+            "explicit_type": default is None or multiple or rng.random() < 0.5}
+
+
+def gen_assignment(rng, d, mode):
+    """A value of d's type and one MUST-ACCEPT way of writing it in a command line ("cmdline") or a config file
+    ("config").  Returns (value, source, time_only); source = ("text", s) | ("literal", python source) | ("flag", None)."""
+    t = d["type"]
+    if d["multiple"]:
+        items, texts, any_time_only = [], [], False
+        for _ in range(rng.randint(1, 4)):
+            if t == "int" and rng.random() < 0.4:
+                a = rng.randint(-50, 1000)
+                b = a + rng.randint(0, 12)
+                items.extend(range(a, b + 1))
+                texts.append(f"{a}:{b}")
+                d["_range"] = True
+            else:
+                v, forms = GEN[t](rng) if t != "str" else gen_str(rng, True)
+                txt, to = rng.choice(forms)
+                any_time_only |= to
+                items.append(v)
+                texts.append(txt)
+        if mode == "config" and rng.random() < 0.5 and not d.get("_range"):
+            src = ("literal", "[" + ", ".join(py_literal(t, v) for v in items) + "]")
+            any_time_only = False
+        else:
+            src = ("text", ",".join(texts))
+        return items, src, any_time_only
+    v, forms = GEN[t](rng)
+    txt, to = rng.choice(forms)
+    if mode == "config" and (rng.random() < 0.5 or t == "str"):
+        src, to = ("literal", py_literal(t, v)), False
+    elif mode == "cmdline" and t == "bool" and v is True and rng.random() < 0.4:
+        src = ("flag", None)
+    else:
+        src = ("text", txt)
+    return v, src, to
+
+
 class Scenario:
     pass
 
@@ -238,19 +307,7 @@ def build(sub):
     rng = random.Random(sub)
     sc = Scenario()
     used = set()
-    sc.defs = []
-    for _ in range(rng.randint(1, 6)):
-        tname = rng.choice(list(TYPES))
-        multiple = rng.random() < 0.3
-        segs, defined = gen_name(rng, used)
-        if rng.random() < 0.3:
-            default = None
-        elif multiple:
-            default = [GEN[tname](rng)[0] if tname != "str" else gen_str(rng, True)[0] for _ in range(rng.randint(0, 3))]
-        else:
-            default = GEN[tname](rng)[0]
-        sc.defs.append({"segs": segs, "name": defined, "type": tname, "multiple": multiple, "default": default,
-                        "explicit_type": default is None or multiple or rng.random() < 0.5})
+    sc.defs = [gen_def(rng, used) for _ in range(rng.randint(1, 6))]
     sc.mode = rng.choice(["cmdline", "cmdline", "config"])
     sc.final = rng.random() < 0.8
     sc.fault = rng.choice([None, None, None, "unknown", "wrongtype", "wrongtype"])
@@ -262,39 +319,7 @@ def build(sub):
     rng.shuffle(order)
     chosen = order[: rng.randint(1, len(order))] if rng.random() < 0.9 else []
     for i in chosen:
-        d = sc.defs[i]
-        t = d["type"]
-        if d["multiple"]:
-            items, texts, any_time_only = [], [], False
-            for _ in range(rng.randint(1, 4)):
-                if t == "int" and rng.random() < 0.4:
-                    a = rng.randint(-50, 1000)
-                    b = a + rng.randint(0, 12)
-                    items.extend(range(a, b + 1))
-                    texts.append(f"{a}:{b}")
-                    d["_range"] = True
-                else:
-                    v, forms = GEN[t](rng) if t != "str" else gen_str(rng, True)
-                    txt, to = rng.choice(forms)
-                    any_time_only |= to
-                    items.append(v)
-                    texts.append(txt)
-            if sc.mode == "config" and rng.random() < 0.5 and not d.get("_range"):
-                src = ("literal", "[" + ", ".join(py_literal(t, v) for v in items) + "]")
-                any_time_only = False
-            else:
-                src = ("text", ",".join(texts))
-            sc.assign.append((i, items, src, any_time_only))
-        else:
-            v, forms = GEN[t](rng)
-            txt, to = rng.choice(forms)
-            if sc.mode == "config" and (rng.random() < 0.5 or t == "str"):
-                src, to = ("literal", py_literal(t, v)), False
-            elif sc.mode == "cmdline" and t == "bool" and v is True and rng.random() < 0.4:
-                src = ("flag", None)
-            else:
-                src = ("text", txt)
-            sc.assign.append((i, v, src, to))
+        sc.assign.append((i,) + gen_assignment(rng, sc.defs[i], sc.mode))
     # UNSPECIFIED alternative spelling on one assigned scalar option (counted, value checked if accepted)
     if sc.fault is None and sc.assign and rng.random() < 0.1:
         k = rng.randrange(len(sc.assign))
@@ -399,17 +424,133 @@ def render(sc, scratch):
 
 
 # ---------------------------------------------------------------------------------------------
+# command lines with an option whose callback re-enters the parser (documented with define():
+#     define("config", type=str, callback=lambda path: parse_config_file(path, final=False))
+# "options in the file specified by --config will override options set earlier on the command line, but can be
+# overridden by later flags").  Three kinds of such callbacks: parse a config file, parse a file of further
+# command-line arguments, assign other options directly.
+
+HOOK_NAMES = [("config",), ("conf", "file"), ("settings",), ("args", "file"), ("include",), ("profile",), ("preset",)]
+HOOK_KINDS = ["file", "file", "file", "argsfile", "setattr"]
+
+
+def gen_wrong_text(rng, d):
+    t = d["type"]
+    if t in ("str", "bool"):          # str takes any text; bool words are the recorded known finding
+        return None
+    if d["multiple"] and t == "int" and rng.random() < 0.6:
+        return rng.choice(WRONG_MULTI_INT)
+    if d["multiple"]:
+        good = rng.choice(GEN[t](rng)[1])[0]
+        return good + "," + rng.choice([w for w in WRONG[t] if "," not in w and ":" not in w])
+    return rng.choice(WRONG[t])
+
+
+def build_cb(sub):
+    rng = random.Random("cb:%d" % sub)
+    sc = Scenario()
+    hook_names = rng.sample(HOOK_NAMES, rng.choice([1, 1, 1, 2]))
+    used = {"-".join(h) for h in HOOK_NAMES}
+    sc.defs = [gen_def(rng, used) for _ in range(rng.randint(1, 6))]
+    sc.final = rng.random() < 0.8
+    sc.hooks = []
+    for segs in hook_names:
+        kind = rng.choice(HOOK_KINDS)
+        idx = [i for i in range(len(sc.defs)) if rng.random() < 0.65] or [rng.randrange(len(sc.defs))]
+        rng.shuffle(idx)
+        payload = []
+        for i in idx:
+            v, src, to = gen_assignment(rng, sc.defs[i], "config" if kind == "file" else "cmdline")
+            if kind == "setattr":
+                src, to = ("value", None), False
+            payload.append((i, v, src, to))
+        sc.hooks.append({"segs": list(segs), "kind": kind, "payload": payload, "given": rng.random() < 0.92,
+                         "spelling": spell(rng, list(segs)), "dashes": rng.choice(["--", "--", "-"])})
+    flags = [(i,) + gen_assignment(rng, sc.defs[i], "cmdline") for i in range(len(sc.defs)) if rng.random() < 0.6]
+    sc.events = [("flag", a) for a in flags] + [("hook", k) for k, h in enumerate(sc.hooks) if h["given"]]
+    rng.shuffle(sc.events)
+    # one fault: a wrong-typed value (or, in an arguments file, an unknown option) inside what a callback parses, or on
+    # the outer command line next to the callback option
+    sc.fault = None
+    if rng.random() < 0.15:
+        given = [k for k, h in enumerate(sc.hooks) if h["given"] and h["kind"] != "setattr"]
+        where = rng.choice(["payload", "payload", "outer"])
+        if where == "payload" and given:
+            k = rng.choice(given)
+            h = sc.hooks[k]
+            if h["kind"] == "argsfile" and rng.random() < 0.4:
+                h["payload"].insert(rng.randint(0, len(h["payload"])), (None, None, ("raw", "--zz-unknown-zz=1"), False))
+                sc.fault = {"where": "payload", "hook": k, "what": "unknown-option"}
+            else:
+                i = rng.randrange(len(sc.defs))
+                txt = gen_wrong_text(rng, sc.defs[i])
+                if txt is not None:
+                    h["payload"] = [a for a in h["payload"] if a[0] != i]
+                    h["payload"].insert(rng.randint(0, len(h["payload"])), (i, None, ("text", txt), False))
+                    d = sc.defs[i]
+                    sc.fault = {"where": "payload", "hook": k, "opt": i, "given": txt,
+                                "what": d["type"] + ("-multiple" if d["multiple"] else "")}
+        elif where == "outer":
+            i = rng.randrange(len(sc.defs))
+            txt = gen_wrong_text(rng, sc.defs[i])
+            if txt is not None:
+                sc.events = [e for e in sc.events if not (e[0] == "flag" and e[1][0] == i)]
+                sc.events.insert(rng.randint(0, len(sc.events)), ("flag", (i, None, ("text", txt), False)))
+                d = sc.defs[i]
+                sc.fault = {"where": "outer", "opt": i, "given": txt, "what": d["type"] + ("-multiple" if d["multiple"] else "")}
+    sc.rng = rng
+    return sc
+
+
+def render_cb(sc, directory):
+    """Returns (argv, {file name: text}).  Hook files live in `directory`."""
+    rng = sc.rng
+    files = {}
+    for k, h in enumerate(sc.hooks):
+        h["path"] = os.path.join(directory, "h%d.%s" % (k, "cfg" if h["kind"] == "file" else "args"))
+        if h["kind"] == "file":
+            lines = ["import datetime", "unrelated_name = 12345"]
+            for (i, v, src, to) in h["payload"]:
+                var = "_".join(sc.defs[i]["segs"])
+                lines.append(f"{var} = {src[1] if src[0] == 'literal' else repr(src[1])}")
+            files[h["path"]] = "\n".join(lines) + "\n"
+        elif h["kind"] == "argsfile":
+            lines = []
+            for (i, v, src, to) in h["payload"]:
+                if src[0] == "raw":
+                    lines.append(src[1])
+                    continue
+                name = spell(rng, sc.defs[i]["segs"])
+                lines.append("--" + name if src[0] == "flag" else "--" + name + "=" + src[1])
+            files[h["path"]] = "".join(ln + "\n" for ln in lines)
+    argv = ["prog"]
+    for ev in sc.events:
+        if ev[0] == "hook":
+            h = sc.hooks[ev[1]]
+            argv.append(h["dashes"] + h["spelling"] + "=" + (h["path"] if h["kind"] != "setattr" else "dev"))
+        else:
+            i, v, src, to = ev[1]
+            name = spell(rng, sc.defs[i]["segs"])
+            dashes = rng.choice(["--", "--", "--", "-", "---"])
+            argv.append(dashes + name if src[0] == "flag" else dashes + name + "=" + src[1])
+    return argv, files
+
+
+# ---------------------------------------------------------------------------------------------
 
 def shards(tier, seed):
     n = 24000 if tier == "quick" else 640000
     k = 16
-    return [{"n": n // k, "j": j} for j in range(k)]
+    out = [{"n": n // k, "j": j} for j in range(k)]
+    cn, ck = (3000, 4) if tier == "quick" else (40000, 4)
+    out += [{"kind": "cb", "n": cn // ck, "j": 100 + j} for j in range(ck)]
+    return out
 
 
 def gen_cases(spec):
     rng = core.rng_for(spec["seed"], PROP, spec["j"])
     for _ in range(spec["n"]):
-        yield (rng.getrandbits(52),)
+        yield (rng.getrandbits(52), "cb") if spec.get("kind") == "cb" else (rng.getrandbits(52),)
 
 
 def directed_cases():
@@ -446,6 +587,8 @@ def same(tname, got, want, time_only):
 
 
 def run_case(case, ctx):
+    if len(case) > 1 and case[1] == "cb":
+        return run_cb_case(case, ctx)
     sc = build(case[0])
     argv, cfg = render(sc, None)
     desc = {"defs": [{k: (ascii(v) if k == "default" else v) for k, v in d.items() if not k.startswith("_") and k != "segs"}
@@ -605,3 +748,232 @@ def run_case(case, ctx):
                           dict(desc, got=remaining, want=want_rem))
     ctx.seen("parse_callback_runs", (sc.final, len(parse_cb)))
     ctx.count("parse_callback_runs_total", len(parse_cb))
+
+
+# ---------------------------------------------------------------------------------------------
+# callback scenarios: execution and oracle
+
+def _valstr(t, multiple):
+    return t + ("-multiple" if multiple else "")
+
+
+def value_ok(d, got, want, time_only):
+    t = d["type"]
+    if d["multiple"]:
+        return isinstance(got, list) and len(got) == len(want) and all(
+            (g == w if t == "bool" else same(t, g, w, time_only and t == "datetime")) for g, w in zip(got, want))
+    return same(t, got, want, time_only)
+
+
+def run_cb_case(case, ctx):
+    sc = build_cb(case[0])
+    directory = os.path.join(scratch_dir(), "cb")
+    os.makedirs(directory, exist_ok=True)
+    argv, files = render_cb(sc, directory)
+    shown = lambda x: x.replace(directory, "{DIR}")  # noqa: E731
+    desc = {"defs": [{k: (ascii(v) if k == "default" else v) for k, v in d.items() if not k.startswith("_") and k != "segs"}
+                     for d in sc.defs],
+            "hooks": [{"name": "-".join(h["segs"]), "kind": h["kind"], "given": h["given"],
+                       "callback": {"file": "lambda path: parser.parse_config_file(path, final=False)",
+                                    "argsfile": "lambda path: parser.parse_command_line(['prog'] + lines_of(path), final=False)",
+                                    "setattr": "lambda v: [setattr(parser, name, value) for name, value in assigns]"}[h["kind"]],
+                       "assigns": [[sc.defs[a[0]]["name"], ascii(a[1])] for a in h["payload"] if a[0] is not None]
+                       if h["kind"] == "setattr" else None} for h in sc.hooks],
+            "mode": "cmdline+callback", "final": sc.final, "argv": [shown(a) for a in argv],
+            "files": {shown(k): v for k, v in files.items()}, "fault": ascii(sc.fault) if sc.fault else None}
+    new = ctx.mark((ascii(desc["defs"]), ascii(desc["hooks"]), desc["argv"], ascii(desc["files"])), True)
+    if new and ctx.evaluations % 397 == 13:
+        ctx.sample(desc)
+    ctx.count("cb_cases")
+    for path, text in files.items():
+        with open(path, "w", encoding="utf-8", newline="\n") as f:
+            f.write(text)
+
+    p = OptionParser()
+    attrs = [d["name"].replace("-", "_") for d in sc.defs]
+    defaults_snapshot = []
+    hook_runs = {k: [] for k in range(len(sc.hooks))}
+
+    def snapshot():
+        return [copy.deepcopy(getattr(p, a)) for a in attrs]
+
+    def make_cb(k, h):
+        def cb(value):
+            rec = {"arg": value, "entry": snapshot(), "exit": None}
+            hook_runs[k].append(rec)
+            if h["kind"] == "file":
+                p.parse_config_file(value, final=False)
+            elif h["kind"] == "argsfile":
+                with open(value, encoding="utf-8", newline="\n") as f:
+                    lines = f.read().split("\n")[:-1]
+                p.parse_command_line(["prog"] + lines, final=False)
+            else:
+                for (i, v, src, to) in h["payload"]:
+                    setattr(p, attrs[i], copy.deepcopy(v))
+            rec["exit"] = snapshot()
+        return cb
+
+    try:
+        for i, d in enumerate(sc.defs):
+            kw = {}
+            if d["explicit_type"]:
+                kw["type"] = TYPES[d["type"]]
+            if d["multiple"]:
+                kw["multiple"] = True
+            dflt = copy.deepcopy(d["default"])
+            defaults_snapshot.append(copy.deepcopy(dflt))
+            p.define(d["name"], default=dflt, **kw)
+        for k, h in enumerate(sc.hooks):
+            p.define("-".join(h["segs"]), type=str, callback=make_cb(k, h))
+    except Exception as e:  # noqa: BLE001
+        ctx.violation(f"define/raises-{type(e).__name__}", "defining a fresh, uniquely named option on a new OptionParser raised",
+                      dict(desc, error=repr(e)))
+        return
+    err = None
+    remaining = None
+    try:
+        with contextlib.redirect_stderr(io.StringIO()):
+            remaining = p.parse_command_line(list(argv), final=sc.final)
+    except Exception as e:  # noqa: BLE001
+        err = e
+    except SystemExit as e:
+        ctx.violation("parse/SystemExit", "parsing called sys.exit", dict(desc, error=repr(e)))
+        return
+    ctx.count("oracle_evals")
+    for h in sc.hooks:
+        if h["given"]:
+            ctx.count("cb_hook_" + h["kind"])
+
+    if sc.fault:
+        ctx.count("cb_neg_" + sc.fault["where"])
+        if err is None:
+            if sc.fault["what"] == "unknown-option":
+                ctx.violation("unknown-option-accepted/inside-option-callback",
+                              "an undefined option in a command line parsed from an option callback was accepted without error",
+                              dict(desc, values=ascii(p.as_dict())))
+            else:
+                d = sc.defs[sc.fault["opt"]]
+                ctx.violation("wrong-type-accepted/" + sc.fault["what"] +
+                              ("/inside-option-callback" if sc.fault["where"] == "payload" else "/next-to-option-callback"),
+                              "a value that is not of the option's type was accepted without error",
+                              dict(desc, option=d["name"], given=sc.fault["given"], parsed_as=ascii(getattr(p, attrs[sc.fault["opt"]]))))
+        return
+    if err is not None:
+        ctx.violation(f"valid-input-rejected/cmdline+callback/{type(err).__name__}",
+                      "a command line (with an option whose callback parses a further file) that sets options to textual "
+                      "forms of values of their types was rejected", dict(desc, error=repr(err)))
+        return
+
+    # (1) inside each callback: what the nested parse sets holds when it returns (the statement applied to that parse)
+    for k, h in enumerate(sc.hooks):
+        for rec in hook_runs[k]:
+            set_here = {}
+            for (i, v, src, to) in h["payload"]:
+                set_here[i] = (v, to)
+            for i, d in enumerate(sc.defs):
+                got = rec["exit"][i]
+                if i in set_here:
+                    ctx.count("cb_in_callback_value_checks")
+                    if not value_ok(d, got, set_here[i][0], set_here[i][1]):
+                        ctx.violation(f"callback-parse/value/{h['kind']}/{_valstr(d['type'], d['multiple'])}",
+                                      "right after the parse performed inside an option callback returned, an option it sets does "
+                                      "not hold the value whose textual form was given",
+                                      dict(desc, option=d["name"], got=ascii(got), want=ascii(set_here[i][0])))
+                else:
+                    before, dflt = rec["entry"][i], defaults_snapshot[i]
+                    if not (got == before and type(got) is type(before)) and not (got == dflt and type(got) is type(dflt)):
+                        ctx.violation(f"callback-parse/changed-option-it-does-not-set/{h['kind']}",
+                                      "a parse performed inside an option callback changed an option it does not mention",
+                                      dict(desc, option=d["name"], before=ascii(before), after=ascii(got)))
+    # (2) after the whole command line
+    setters = {i: [] for i in range(len(sc.defs))}
+    for ev in sc.events:
+        if ev[0] == "flag":
+            i, v, src, to = ev[1]
+            setters[i].append(("flag", None, v, to))
+        else:
+            k = ev[1]
+            for (i, v, src, to) in sc.hooks[k]["payload"]:
+                setters[i].append(("hook", k, v, to))
+    for i, d in enumerate(sc.defs):
+        t = d["type"]
+        ctx.count("type_" + t)
+        try:
+            got = getattr(p, attrs[i])
+            got2 = p[d["name"]]
+            got3 = p.as_dict()[d["name"]]
+        except Exception as e:  # noqa: BLE001
+            ctx.violation(f"lookup/raises-{type(e).__name__}", "reading a defined option raised",
+                          dict(desc, option=d["name"], error=repr(e)))
+            continue
+        if not (got == got2 == got3) and not (got != got):
+            ctx.violation("lookup/accessors-disagree", "attribute, item and as_dict access return different values",
+                          dict(desc, option=d["name"], values=ascii([got, got2, got3])))
+        ss = setters[i]
+        if not ss:
+            ctx.count("default_checks")
+            want = defaults_snapshot[i]
+            ok = (got == want and type(got) is type(want)) or (want is None and d["multiple"] and got == [])
+            if not ok:
+                ctx.violation("default/unset-option-lost-its-default", "an option that was not set does not hold its default",
+                              dict(desc, option=d["name"], got=ascii(got), default=ascii(want)))
+            continue
+        ctx.count("value_checks")
+        last = ss[-1]
+        if last[0] == "flag":
+            # the command line itself sets the option last: explicitly (statement) and by the documented order
+            # ("options in the file ... can be overridden by later flags")
+            if any(x[0] == "hook" for x in ss):
+                ctx.count("cb_flag_after_hook_same_option")
+            else:
+                ctx.count("cb_flag_only")
+            if not value_ok(d, got, last[2], last[3]):
+                overridden = any(value_ok(d, got, x[2], x[3]) for x in ss[:-1])
+                mech = ("value/cmdline-flag-overridden-by-callback-option-given-earlier" if overridden else
+                        "value/cmdline+callback/" + _valstr(t, d["multiple"]))
+                ctx.violation(mech, "an option set by a command-line flag holds, after parsing, the value assigned by an option "
+                              "callback given EARLIER on the command line instead of the flag's value (documented: 'can be "
+                              "overridden by later flags')" if overridden else
+                              "the parsed value is not the value whose textual form was given",
+                              dict(desc, option=d["name"], got=ascii(got), want=ascii(last[2]),
+                                   all_assignments_in_order=ascii([(x[0], x[1], x[2]) for x in ss])))
+            continue
+        ran = [x for x in ss if x[0] == "flag" or hook_runs[x[1]]]
+        if len(ss) == 1:
+            if not hook_runs[last[1]]:
+                ctx.count("unspecified_option_callback_not_run")      # callback invocation itself is documentation, not statement
+                continue
+            ctx.count("cb_set_only_by_callback_parse")
+            if not value_ok(d, got, last[2], last[3]):
+                ctx.violation(f"value/set-only-inside-option-callback/{sc.hooks[last[1]]['kind']}/{_valstr(t, d['multiple'])}",
+                              "an option assigned only by the parse an option callback performed (checked there) no longer holds "
+                              "that value after the command line was parsed, although nothing else sets it",
+                              dict(desc, option=d["name"], got=ascii(got), want=ascii(last[2])))
+            continue
+        # the last assignment in command-line order comes from a callback and earlier flags / callbacks also set the option:
+        # documented ("will override options set earlier on the command line") but the statement read literally says the
+        # flag's value -> either is accepted, anything else is a value from nowhere
+        if value_ok(d, got, last[2], last[3]):
+            ctx.count("unspecified_callback_overrode_earlier_assignment")
+        elif any(value_ok(d, got, x[2], x[3]) for x in ran or ss):
+            ctx.count("unspecified_earlier_assignment_survived_callback")
+        else:
+            ctx.violation(f"value/callback-scenario-value-from-nowhere/{_valstr(t, d['multiple'])}",
+                          "after parsing, an option holds none of the values the command line or the callbacks' files set it to",
+                          dict(desc, option=d["name"], got=ascii(got),
+                               all_assignments_in_order=ascii([(x[0], x[1], x[2]) for x in ss])))
+    for k, h in enumerate(sc.hooks):
+        got = getattr(p, "_".join(h["segs"]))
+        if h["given"]:
+            want = h["path"] if h["kind"] != "setattr" else "dev"
+            if not (type(got) is str and got == want):
+                ctx.violation("value/cmdline+callback/str", "the parsed value is not the value whose textual form was given",
+                              dict(desc, option="-".join(h["segs"]), got=ascii(got), want=shown(want)))
+        elif got is not None:
+            ctx.violation("default/unset-option-lost-its-default", "an option that was not set does not hold its default",
+                          dict(desc, option="-".join(h["segs"]), got=ascii(got), default="None"))
+        ctx.seen("hook_callback_runs", (h["given"], len(hook_runs[k])))
+    ctx.count("remaining_checks")
+    if remaining != []:
+        ctx.violation("cmdline/remaining-args", "parse_command_line did not return the arguments after the options",
+                      dict(desc, got=remaining, want=[]))
